@@ -33,7 +33,12 @@ fn with_codec<const N: usize, R>(c: Cipher, server_pw: &str, users: &[(String, S
     for (n, p) in users {
         um.add_user(ServerUser::try_from(&User { name: n.clone(), password: p.clone() }).map_err(|e| e.to_string())?);
     }
-    let (key, ikeys) = password_to_keys::<N>(server_pw).map_err(|e| e.to_string())?;
+    // same branch as server/shadowsocks.rs::startup_udp
+    let (key, ikeys) = if c.is_2022() {
+        password_to_keys::<N>(server_pw).map_err(|e| e.to_string())?
+    } else {
+        (octo_squirrel::protocol::shadowsocks::aead::openssl_bytes_to_key::<N>(server_pw.as_bytes()), Vec::new())
+    };
     let ctx = Context::new(Mode::Server, Some(Arc::new(um)), &key, &ikeys);
     let codec = SessionCodec::<N>::new(ctx, AEADCipherCodec::new(kind(c)));
     Ok(f(&codec))
